@@ -1,6 +1,7 @@
 import os
 import hashlib
 import json
+import collections
 
 from ... import DataStreamProcessor, ResourceWrapper, schema_validator
 
@@ -94,6 +95,9 @@ class DumperBase(DataStreamProcessor):
             )
             ret = self.row_counter(resource, ret)
             yield ret
+            # a later step may stop reading this resource before its end: what it left unread is read
+            # here, so that the complete resource is written and counted before the dump goes on
+            collections.deque(ret, maxlen=0)
 
         # Calculate datapackage hash
         if self.datapackage_hash:
